@@ -52,6 +52,10 @@ type XScript struct {
 	// carries the items that still have to be delivered).
 	Partial  bool
 	SettleMS int // pause between the last offer and Shutdown
+	// AwaitAttempts: before Shutdown, wait (at most AwaitMS) until the backend
+	// has seen that many attempts; it only steers which history is observed.
+	AwaitAttempts int
+	AwaitMS       int
 }
 
 // XBatch is a batching configuration (items).
@@ -173,6 +177,10 @@ func genX(t *rapid.T) XScript {
 			}
 		}
 		s.Fates = append(s.Fates, f)
+	}
+	if !s.sync() && rapid.IntRange(0, 3).Draw(t, "await?") == 0 {
+		s.AwaitAttempts = rapid.IntRange(1, 4).Draw(t, "await")
+		s.AwaitMS = 15
 	}
 	if !s.sync() && !s.Block && rapid.Bool().Draw(t, "hold?") {
 		s.Hold = rapid.IntRange(1, np).Draw(t, "hold")
@@ -331,7 +339,7 @@ func (s *XScript) options() ([]exporterhelper.Option, error) {
 func runX(s XScript) (nontrivial bool, k string, f *vt.Finding) {
 	k = hashKey(s)
 	cX.HangGuard(90*time.Second, s, "hang/exporter", func() {
-		nontrivial, f = runXInner(&s)
+		nontrivial, f = runXInner(cX, &s)
 	})
 	return nontrivial, k, f
 }
@@ -342,7 +350,7 @@ type call struct {
 	err error
 }
 
-func runXInner(s *XScript) (nontrivial bool, f *vt.Finding) {
+func runXInner(c *vt.C, s *XScript) (nontrivial bool, f *vt.Finding) {
 	if s.Hold > 0 && (s.sync() || s.Block) || s.Hold > len(s.Payloads) {
 		return false, vt.Failf("harness/script", "hold phase with a configuration whose producers may block")
 	}
@@ -420,6 +428,16 @@ func runXInner(s *XScript) (nontrivial bool, f *vt.Finding) {
 		wg.Wait()
 		i += n
 	}
+	if s.AwaitAttempts > 0 {
+		for deadline := time.Now().Add(time.Duration(s.AwaitMS) * time.Millisecond); time.Now().Before(deadline); time.Sleep(200 * time.Microsecond) {
+			be.mu.Lock()
+			n := len(be.ledger)
+			be.mu.Unlock()
+			if n >= s.AwaitAttempts {
+				break
+			}
+		}
+	}
 	if s.SettleMS > 0 {
 		time.Sleep(time.Duration(s.SettleMS) * time.Millisecond)
 	}
@@ -446,7 +464,7 @@ func runXInner(s *XScript) (nontrivial bool, f *vt.Finding) {
 	chainOf := map[int64]int{}
 	for ai, a := range ledger {
 		if a.outcome == "" {
-			return false, vt.Failf("harness/ledger", "attempt %d did not finish before Shutdown returned", ai)
+			return true, vt.Failf("exporter/attempt-outlives-shutdown", "attempt %d of the export function had not returned when Shutdown returned", ai)
 		}
 		if len(a.ids) == 0 {
 			continue
@@ -575,14 +593,14 @@ func runXInner(s *XScript) (nontrivial bool, f *vt.Finding) {
 	expFailed, expEnq := failN-storedFail, refusedN
 	if storedFail > 0 && failed == failN {
 		ff := vt.Failf("exporter/send-failed-but-still-stored", "%d items were booked as send_failed although their request is still in the persistent queue: %s", storedFail, desc())
-		if !cX.Soft(ff, s) {
+		if !c.Soft(ff, s) {
 			return true, ff
 		}
 		expFailed = failN
 	}
 	if hasQueue && sendErrReturned > 0 && enq == refusedN+sendErrReturned {
 		ff := vt.Failf("exporter/send-failure-also-booked-as-enqueue-failed", "%d items whose request was enqueued and then failed to be sent were booked under send_failed AND enqueue_failed: %s", sendErrReturned, desc())
-		if !cX.Soft(ff, s) {
+		if !c.Soft(ff, s) {
 			return true, ff
 		}
 		expEnq = refusedN + sendErrReturned
@@ -590,7 +608,7 @@ func runXInner(s *XScript) (nontrivial bool, f *vt.Finding) {
 	storedOKListed := false
 	if storedOK > 0 && sent == okN {
 		ff := vt.Failf("exporter/sent-but-still-stored", "%d items were booked as sent (and were delivered) while their request is still in the persistent queue: %s", storedOK, desc())
-		if !cX.Soft(ff, s) {
+		if !c.Soft(ff, s) {
 			return true, ff
 		}
 		storedOKListed = true
@@ -645,36 +663,36 @@ func runXInner(s *XScript) (nontrivial bool, f *vt.Finding) {
 	if storedFail > 0 || storedOK > 0 {
 		kinds["shutdown-interrupted-retry"] = true
 	}
-	cX.Class("signal:"+s.Signal, "queue:"+s.Queue, fmt.Sprintf("outcome-kinds:%d", len(kinds)))
+	c.Class("signal:"+s.Signal, "queue:"+s.Queue, fmt.Sprintf("outcome-kinds:%d", len(kinds)))
 	for kd := range kinds {
-		cX.Class("kind:" + kd)
+		c.Class("kind:" + kd)
 	}
 	if s.Wait || (s.Queue == "none" && s.Legacy != nil) {
-		cX.Class("wait-for-result")
+		c.Class("wait-for-result")
 	}
 	if s.Batch != nil {
-		cX.Class("batch")
+		c.Class("batch")
 	}
 	if s.Legacy != nil {
-		cX.Class("legacy-batcher")
+		c.Class("legacy-batcher")
 	}
 	if s.Retry != nil {
-		cX.Class("retry")
+		c.Class("retry")
 	}
 	if split {
-		cX.Class("request-split-over-batches")
+		c.Class("request-split-over-batches")
 	}
 	if merged {
-		cX.Class("batch-of-several-requests")
+		c.Class("batch-of-several-requests")
 	}
 	if retried {
-		cX.Class("retried")
+		c.Class("retried")
 	}
 	if gaugeChecked != "" {
-		cX.Class("gauges:" + gaugeChecked)
+		c.Class("gauges:" + gaugeChecked)
 	}
 	if shutdownErr != nil {
-		cX.Class("shutdown-returned-error")
+		c.Class("shutdown-returned-error")
 	}
 	return len(kinds) >= 2 && (split || merged || retried), nil
 }
